@@ -20,7 +20,7 @@ RULE = (
     "labels (any text without NUL) at generated indices < n, the count raised and lowered on the same object before it settles at n, labels left on controllers beyond the count, value types re-derived or not before saving, values assigned through user controllers "
     "where the target admits them; both contexts (stand-alone synth / in a project). Oracle: snapshot equality after save/load (embedded project "
     "recursively under the C01 oracle, count, all 96 mappings, labels < n, stored values, attached set = first n), file structure (5+n CVALs, "
-    "8(5+n) CMID bytes, label chunks only for indices < n, via independent chunk parsing), second cycle byte-identical. non-trivial = n >= 1 with a "
+    "8(5+n) CMID bytes, label chunks only for indices < n, via independent chunk parsing), second cycle byte-identical; plus edit histories (load - edit in place, also inside nested embedded projects, optionally saving in between - save - load) under C06's metamorphic oracle. non-trivial = n >= 1 with a "
     "mapping onto a non-plain-range target, or depth >= 1"
 )
 ASSUMPTIONS = [
@@ -29,8 +29,8 @@ ASSUMPTIONS = [
     "user-visible values of user controllers are not claimed, stored values are",
 ]
 REQUIRED_LABELS = {
-    "quick": ["depth_0", "depth_1", "depth_2", "count_0", "count_96", "count_mid", "map_enum", "map_bool", "map_negative_range", "label_set", "ctx_synth", "ctx_project", "user_value_set", "types_rederived", "label_beyond_count", "count_lowered", "user_ctl_midi_binding"],
-    "thorough": ["depth_0", "depth_1", "depth_2", "depth_3", "count_0", "count_96", "count_95", "count_27", "count_mid", "map_enum", "map_bool", "map_negative_range", "map_dependent", "label_set", "ctx_synth", "ctx_project", "user_value_set", "types_rederived"],
+    "quick": ["edit_history", "depth_0", "depth_1", "depth_2", "count_0", "count_96", "count_mid", "map_enum", "map_bool", "map_negative_range", "label_set", "ctx_synth", "ctx_project", "user_value_set", "types_rederived", "label_beyond_count", "count_lowered", "user_ctl_midi_binding"],
+    "thorough": ["edit_history", "depth_0", "depth_1", "depth_2", "depth_3", "count_0", "count_96", "count_95", "count_27", "count_mid", "map_enum", "map_bool", "map_negative_range", "map_dependent", "label_set", "ctx_synth", "ctx_project", "user_value_set", "types_rederived"],
 }
 INNER_TYPES = ["Amplifier", "Adsr", "Lfo", "Filter", "Generator", "Delay", "MultiSynth", "VorbisPlayer", "Compressor"]
 
@@ -41,7 +41,12 @@ def exhaustive(tier):
 
 def plan(tier):
     n, per, depth = (16, 60, 2) if tier == "quick" else (16, 800, 4)
-    return [{"kind": "random", "examples": per, "max_depth": depth} for _ in range(n)]
+    descs = [{"kind": "random", "examples": per, "max_depth": depth} for _ in range(n)]
+    # second generation: load what was saved, edit it in place (also inside nested embedded projects,
+    # optionally saving in between), save and load again
+    for f in ("NestedMeta", "NestedMeta", "MetaModule"):
+        descs.append({"kind": "edit_history", "focus": f, "examples": per})
+    return descs
 
 
 @st.composite
@@ -263,7 +268,28 @@ def check_meta(ctx, ms):
     return labels
 
 
+def run_edit_history(ctx, desc):
+    from checks import c06
+
+    def body(case):
+        ctx.case()
+        try:
+            labels, changed = c06.run_case(ctx, case)
+        except PropertyViolation as v:
+            raise PropertyViolation("C15.edit_history." + v.sub_oracle.split(".", 1)[1], v.detail, key="C15.edit_history." + v.key.split(".", 1)[1])
+        ctx.label("edit_history", *[l for l in labels if l in ("saved_before_edit", "embedded_edit", "sampler_edit", "metamodule_edit")])
+        if changed:
+            ctx.mark_nontrivial(case)
+        if len(repr(case)) < 1000:
+            ctx.sample(case)
+
+    run_property(ctx, c06.edit_case(focus=desc["focus"]), body, desc["examples"], tag="edit_history", bucket="edit_history")
+
+
 def run_shard(ctx, desc):
+    if desc["kind"] == "edit_history":
+        run_edit_history(ctx, desc)
+        return
     def body(ms):
         ctx.case()
         labels = check_meta(ctx, ms)
@@ -280,4 +306,9 @@ def run_shard(ctx, desc):
 
 
 def replay(ctx, doc):
+    if doc["recipe"].get("tag") == "edit_history":
+        from checks import c06
+
+        c06.run_case(ctx, doc["recipe"]["case"])
+        return
     check_meta(ctx, doc["recipe"]["case"])
